@@ -4,7 +4,7 @@ import refmodel as R, cmpfam as F, elayer as E, glayer
 
 LEVEL = "proof"
 SUBSETS = [["Hash"], ["PartialEq", "Eq", "Hash"], ["PartialEq", "Eq", "PartialOrd", "Ord", "Hash"], ["PartialEq", "Hash"]]
-G_UNITS = {"cmp_flags": ["CompareOp::is_effects_to", "HelperAttributesForCompareOp::is_ignore"]}
+G_UNITS = {"cmp_flags": ["CompareOp::is_effects_to", "HelperAttributesForCompareOp::is_ignore"], "cmp_select": ["build_hash_expr", "ItemSourceKind::self_of"]}
 
 
 def programs(ctx):
@@ -37,7 +37,7 @@ def run(ctx):
     cov = dict(st)
     cov.update({
         "obligations": st["kani_harnesses"] + g["obligations"], "discharged": st["kani_verified"] + g["discharged"],
-        "checker_cmd": "cargo kani -Z function-contracts -j 16 --output-format terse (crates build/e/C06/*) ; verus build/g/cmp_flags.rs",
+        "checker_cmd": "cargo kani -Z function-contracts -j 16 --output-format terse (crates build/e/C06/*) ; verus build/g/{cmp_flags,cmp_select}.rs",
         "trusted_base": ["Kani 0.68.0 / CBMC 6.11", "rustc (proc-macro expansion of the real /repo/derive-ex)", "Verus/Z3 for layer G"],
         "functions_under_contract": ["w_feed wrapper of the generated Hash::hash of every program (proof_for_contract)"] + g["functions_under_contract"],
         "g_units": g["units"], "samples": [p.meta["describe"] for p in progs[:5]],
